@@ -501,6 +501,13 @@ class Analysis:
                             st.ptr.pop(t["path"], None)
                     return
             # memory store through pointer / array
+            if n.get("idiom_covered"):
+                # the element store of a recognised copy / fill loop: its extent is the obligation of the synthetic
+                # memcpy / memset in the loop's pre-header (sa/idioms.py); what is known about the string length is gone
+                b_ = self.pointer(st, t.child(0)) if t.k == "ArraySubscriptExpr" else None
+                if b_ is not None:
+                    st.slen.pop(b_[0], None)
+                return
             if t.k == "ArraySubscriptExpr" or (t.k == "UnaryOperator" and t.get("op") == "*"):
                 if t.k == "ArraySubscriptExpr":
                     base = self.pointer(st, t.child(0))
@@ -549,7 +556,7 @@ class Analysis:
             if p and t.get("tk") in INT_TK:
                 self.scalar_store(st, n, t, op)
             return
-        if k == "ArraySubscriptExpr" and self.loads:
+        if k == "ArraySubscriptExpr" and self.loads and not n.get("idiom_covered"):
             par = fn.parent_of(n)
             is_store_target = par is not None and C.store_target(par) is not None and C.store_target(par).id == n.id
             is_addr = par is not None and par.k == "UnaryOperator" and par.get("op") == "&"
